@@ -19,6 +19,7 @@
 -/
 import StatsCI.Lemmas.Total
 import StatsCI.Lemmas.Wilson
+import StatsCI.Lemmas.MeanUnpaired
 
 namespace StatsCI.C06
 open StatsCI NumOps Scalar
@@ -142,8 +143,10 @@ example : (Arith.ciPrep (Arith.fromList [inj 1, inj 2, inj 4] : Arith Rex) :
 /-- `Unpaired::ci_mean` hands on the documented effective degrees of freedom
     `S²/(A²/(n_a+1) + B²/(n_b+1)) − 1 − 1`, `A = s_a²/n_a`, `B = s_b²/n_b`, `S = A + B`, where `A`, `B`
     are computed in the data type and the formula is evaluated in the wide type on the widened `A`,
-    `B`, `n_a`, `n_b`; `sem = sqrt(A + B)` is computed in the data type and then widened — on every
-    carrier -/
+    `B`, `n_a`, `n_b` and then bounded below by `min(n_a, n_b) − 1` (`Unpaired.clampDof`: a computed
+    value below the bound is replaced by it, anything else — a NaN included — passes; in exact
+    arithmetic the bound is inactive unless both samples are constant, `unpaired_dof_val`);
+    `sem = sqrt(A + B)` is computed in the data type and then widened — on every carrier -/
 theorem unpaired_dof {F W : Type} [Scalar F] [Scalar W] [Widen F W] (u : Unpaired F)
     (p : Arith.Prep W) (h : (Unpaired.ciPrep u : Outcome (Err W) (Arith.Prep W)) = .ok p) :
     let A : F := div (mul u.a.stdDev u.a.stdDev) (Scalar.ofNat u.a.count)
@@ -152,9 +155,10 @@ theorem unpaired_dof {F W : Type} [Scalar F] [Scalar W] [Widen F W] (u : Unpaire
     let A' : W := Widen.up A
     let B' : W := Widen.up B
     let S' : W := add A' B'
-    p.dof = sub (sub (div (mul S' S')
+    p.dof = Unpaired.clampDof (sub (sub (div (mul S' S')
         (add (div (mul A' A') (add (Widen.up (Scalar.ofNat u.a.count : F)) one))
-             (div (mul B' B') (add (Widen.up (Scalar.ofNat u.b.count : F)) one)))) one) one ∧
+             (div (mul B' B') (add (Widen.up (Scalar.ofNat u.b.count : F)) one)))) one) one)
+        (Widen.up (Scalar.ofNat u.a.count : F)) (Widen.up (Scalar.ofNat u.b.count : F)) ∧
     p.sem = Widen.up (sqrt S) ∧ p.mean = Widen.up (sub u.a.mean u.b.mean) ∧
     2 ≤ u.a.count ∧ 2 ≤ u.b.count := by
   obtain ⟨h1, h2, _, _, rfl⟩ := Unpaired.ciPrep_eq_ok h
@@ -165,10 +169,40 @@ theorem unpaired_dof_val (u : Unpaired Rex) (p : Arith.Prep Rex)
     (h : (Unpaired.ciPrep u : Outcome (Err Rex) (Arith.Prep Rex)) = .ok p) :
     let A : ℝ := u.a.stdDev.val * u.a.stdDev.val / u.a.count
     let B : ℝ := u.b.stdDev.val * u.b.stdDev.val / u.b.count
-    p.dof.val = (A + B) * (A + B) / (A * A / (u.a.count + 1) + B * B / (u.b.count + 1)) - 1 - 1 ∧
+    p.dof.val = max ((A + B) * (A + B) / (A * A / (u.a.count + 1) + B * B / (u.b.count + 1)) - 1 - 1)
+      (min (u.a.count : ℝ) u.b.count - 1) ∧
+    (0 < A + B → p.dof.val =
+      (A + B) * (A + B) / (A * A / (u.a.count + 1) + B * B / (u.b.count + 1)) - 1 - 1) ∧
     p.sem.val = Real.sqrt (A + B) ∧ p.mean.val = u.a.mean.val - u.b.mean.val := by
-  obtain ⟨h1, h2, h3, _, _⟩ := unpaired_dof u p h
-  refine ⟨by simp [h1], by simp [h2], by simp [h3]⟩
+  obtain ⟨h1, h2, h3, ha, hb⟩ := unpaired_dof u p h
+  have hd : p.dof.val = max ((u.a.stdDev.val * u.a.stdDev.val / u.a.count +
+        u.b.stdDev.val * u.b.stdDev.val / u.b.count) * (u.a.stdDev.val * u.a.stdDev.val / u.a.count +
+        u.b.stdDev.val * u.b.stdDev.val / u.b.count) /
+        (u.a.stdDev.val * u.a.stdDev.val / u.a.count * (u.a.stdDev.val * u.a.stdDev.val / u.a.count) /
+          (u.a.count + 1) +
+          u.b.stdDev.val * u.b.stdDev.val / u.b.count * (u.b.stdDev.val * u.b.stdDev.val / u.b.count) /
+          (u.b.count + 1)) - 1 - 1) (min (u.a.count : ℝ) u.b.count - 1) := by
+    rw [h1, Unpaired.clampDof_val]; simp
+  refine ⟨hd, fun hpos => ?_, by simp [h2], by simp [h3]⟩
+  rw [hd]
+  have hna : (2 : ℝ) ≤ u.a.count := by exact_mod_cast ha
+  have hnb : (2 : ℝ) ≤ u.b.count := by exact_mod_cast hb
+  have hA0 : 0 ≤ u.a.stdDev.val * u.a.stdDev.val / u.a.count :=
+    div_nonneg (mul_self_nonneg _) (by linarith)
+  have hB0 : 0 ≤ u.b.stdDev.val * u.b.stdDev.val / u.b.count :=
+    div_nonneg (mul_self_nonneg _) (by linarith)
+  have hge := StatsCI.MeanLemmas.welchDof_ge _ _ _ _ hna hnb hA0 hB0 hpos
+  apply max_eq_left
+  have e : StatsCI.MeanLemmas.welchDof (u.a.stdDev.val * u.a.stdDev.val / u.a.count)
+      (u.b.stdDev.val * u.b.stdDev.val / u.b.count) u.a.count u.b.count =
+      (u.a.stdDev.val * u.a.stdDev.val / u.a.count + u.b.stdDev.val * u.b.stdDev.val / u.b.count) *
+        (u.a.stdDev.val * u.a.stdDev.val / u.a.count + u.b.stdDev.val * u.b.stdDev.val / u.b.count) /
+        (u.a.stdDev.val * u.a.stdDev.val / u.a.count * (u.a.stdDev.val * u.a.stdDev.val / u.a.count) /
+          (u.a.count + 1) +
+          u.b.stdDev.val * u.b.stdDev.val / u.b.count * (u.b.stdDev.val * u.b.stdDev.val / u.b.count) /
+          (u.b.count + 1)) - 1 - 1 := by
+    unfold StatsCI.MeanLemmas.welchDof; ring
+  rw [← e]; exact hge
 
 /-- `Paired::ci_mean` is `Arithmetic::ci_mean` of the differences: `dof = n − 1` again -/
 theorem paired_is_arith {F W : Type} [Scalar F] [Scalar W] [Widen F W] (crit : Crit W)
